@@ -444,6 +444,7 @@ def check(run: Run, prog: Program):
         run.add("K1", "held/" + key, d["where"], d["msg"])
 
     _k4_memo(run, prog, cm)
+    _k4_cond_recompute(run, prog, cm)
     _k4_groups(run, prog, cm)
 
     run.units = {"classes": len(cm.classes), "cached_methods": len(all_cached),
@@ -613,6 +614,83 @@ def _k4_memo(run, prog, cm):
                                     classes=[D.name])
     run.count("K4", n)
     run.floor("memo obligations", n, 1)
+
+
+def _k4_cond_recompute(run, prog, cm):
+    """Conditional recomputation: `if <test on guard cells G>: <recompute cells
+    Y from cells SRC, refresh G>` keeps the old Y on the other path.  Every
+    other public entry point that writes a SRC cell must then also write a
+    guard or memo cell, otherwise the stale Y is reused."""
+    from .pymodel import _Builder
+    n_sites = 0
+    for C in sorted(prog.classes.values(), key=lambda c: c.name):
+        for f in list(C.methods.values()):
+            if f.kind != "method" or f.name == "__init__":
+                continue
+            for node in ast.walk(f.node):
+                if not isinstance(node, ast.If):
+                    continue
+                b = _Builder(prog, f, C, {}, True)
+                try:
+                    ttest = b.expr(node.test)
+                    tthen = b.block(node.body)
+                    telse = b.block(node.orelse)
+                except AnalysisError:
+                    continue
+
+                def cells(t, kinds):
+                    return {e.cell for e in iter_events(t) if e.kind in kinds}
+                G = cells(ttest, ("read",)) - OUTPUT_ONLY_CELLS - cm.counters
+                if not G:
+                    continue
+                for tb, to in ((tthen, telse), (telse, tthen)):
+                    Yb = cells(tb, ("write", "assign"))
+                    Yo = cells(to, ("write", "assign"))
+                    if not (Yb - Yo) or not (G & Yb):
+                        continue
+                    # only derived values count (a constant store is a reset)
+                    derived = {e.cell for e in iter_events(tb)
+                               if e.kind == "write" and e.cell in (Yb - Yo)}
+                    if not derived:
+                        continue
+                    src = cells(tb, ("read",)) - G - Yb - OUTPUT_ONLY_CELLS - cm.counters
+                    if not src:
+                        continue
+                    n_sites += 1
+                    guard = G | Yb
+                    for D in sorted((d for d in prog.classes.values()
+                                     if C in d.mro and prog.lookup(d, f.name) is f),
+                                    key=lambda d: d.name):
+                        acts = cm.activations(D) if prog.is_subclass(D, "Cached") else \
+                            [g for nme, g in sorted(prog.all_methods(D).items())
+                             if g.kind == "method" and not nme.startswith("_")]
+                        for a in acts:
+                            if a is f:
+                                continue
+                            wr, _, _, _ = tree_summary(prog.tree(a, D, {}))
+                            hit = sorted(src & set(wr))
+                            if not hit:
+                                continue
+                            ok = bool(guard & set(wr))
+                            inst = f"{D.name}:{f.qualname}:{a.qualname}"
+                            run.oblige("K4", "recompute:" + inst, ok, sample={
+                                "where": f"{f.module.relpath}:{node.lineno}",
+                                "guard": sorted(G), "memo": sorted(Yb - Yo)[:6],
+                                "derived_from": hit, "writer": a.qualname})
+                            if not ok:
+                                w = wr[hit[0]]
+                                run.add(
+                                    "K4", f"recompute/{f.qualname}/"
+                                    f"{'+'.join(sorted(G))}/{w.func.qualname}",
+                                    w.where,
+                                    f"{f.qualname} recomputes {sorted(derived)[:4]} only "
+                                    f"when its test on {sorted(G)} says so "
+                                    f"({f.module.relpath}:{node.lineno}), but they are "
+                                    f"derived from {hit}, which {w.func.qualname} "
+                                    f"rewrites (entry {a.qualname}) without touching the "
+                                    f"guard: the stale value is reused",
+                                    classes=[D.name])
+    run.count("K4", n_sites)
 
 
 def _k4_groups(run, prog, cm):
